@@ -122,3 +122,240 @@ Example C04_witness_empty_blocks : run_arrays [fa [(0, 2); (2, 2); (2, 2); (3, 4
 Proof. vm_compute. reflexivity. Qed.
 Example C04_witness_beyond_population : run_arrays [fa [(0, 4)] 2 3] 1 = Ok [[(0, 0, 2)]].
 Proof. vm_compute. reflexivity. Qed.
+
+(* ================================================================================================================== *)
+(* ENTITY LEVEL (proofs/JobFilterFull.v, JobVisits.v, JobEntity.v): what Manager.step RETURNS for a job run, on the
+   states related to the abstract world MgrSpec by the invariant MInv -- hence on the final state of every script of
+   the unlocked alphabet, also when job runs are interleaved with it.
+   Vocabulary:
+     step s (ORunJob j parallel tasks_override workers cap [] false) = Ok (s', RJob last arrays)
+                          the run of job j without callback actions that unlocks at its end; arrays is the list of
+                          (task, first entity_index, [(handle, [per request of j: Some cell | None])]) in the order
+                          tasks 0..T-1 process them
+     out_visits arrays    the (handle, cells) of every invocation of the callback, in that order
+     out_indices arrays   the entity_index of every invocation, in that order
+     jfull j              j_last j = WV_NULL \/ j_check j = 0   (first run, or no version filter)
+     reqs_ok j            every component id named by j is below MASK_BITS
+     spec_selected j e    the SPECIFICATION entity e has every component of job_required_mask j
+     cell_ok e r oc       for the request r = (c, const?, required?): oc = Some v with (c, w) one of e's components and
+                          cell_le w v (v is e's own value of c; an indeterminate specification value matches anything),
+                          or oc = None and e lacks c (null for an absent optional component)
+     visit_of_entity hs x j k v
+                          the visit v carries the handle issued k-th (hnd hs k) and, request by request, cell_ok e
+                          for the specification entity e = find_ent x k
+     JReady s             every archetype has a positive version-chunk size, the command buffers are empty, the
+                          default chunk configuration is in force (kept by the alphabet and by job runs; without it
+                          the C++ divides by zero / flushes foreign commands) *)
+Require Import Coq.NArith.NArith Coq.ZArith.ZArith.
+From Mustache Require Import Manager MgrSpec Refine Palette.
+From Mustache.proofs Require Import SkelInv ManagerInv ManagerMain VersionProofs JobFilterFull JobVisits JobEntity.
+
+(* model level, every state with sane archetypes (no MInv needed): the run is defined for every parallel flag, task
+   override, worker count and storage-chunk capacity cap >= 1, and the callback sees -- in this order -- the members
+   0..population-1 of every non-empty archetype with the required components, in archetype order, each with the handle
+   and the cells stored at its own slot; entity_index counts 0..N-1; the state changes in stamps / bookkeeping only *)
+Theorem C04_run_job_model : forall s j parallel tov workers cap,
+  jfull j -> 0 < cap -> run_ready s ->
+  exists s1 s' last arrays,
+    step s (ORunJob j parallel tov workers cap [] false) = Ok (s', RJob last arrays) /\
+    stamps_only s s1 /\ (s' = s1 \/ s' = job_final s1) /\
+    out_visits arrays = expected_visits j (archs s) /\
+    out_indices arrays = seq 0 (length (out_visits arrays)) /\
+    last = (match out_visits arrays with [] => j_last j | _ => wv s end).
+Proof. exact run_job_model. Qed.
+Print Assumptions C04_run_job_model.
+
+(* the filter on a state satisfying the invariant, for a job that processes everything: Ok; version stamps are all that
+   changes; the records are well-formed in the sense of C04_tasks_cover (so that theorem applies to them), one per
+   non-empty archetype having the required components, fa_count = population, selecting the members 0..population-1 *)
+Theorem C04_filter_wellformed : forall cis s hs al x j cap,
+  MInv cis s hs al x -> JReady s -> jfull j -> 0 < cap ->
+  exists s1 fas,
+    job_filter s j = Ok (s1, fas) /\ stamps_only s s1 /\
+    Forall fa_wf (map (with_cap cap) fas) /\ NoDup (map fa_arch fas) /\
+    (forall fa, In fa fas -> exists a, nth_error (archs s) (fa_arch fa) = Some a /\ jmatch j a = true /\
+                                       fa_count fa = length (am_ents a) /\ fa_size fa = length (am_ents a) /\
+                                       selected_of_blocks (fa_blocks fa) = seq 0 (length (am_ents a))) /\
+    (forall ai a, nth_error (archs s) ai = Some a -> jmatch j a = true -> exists fa, In fa fas /\ fa_arch fa = ai).
+Proof. exact filter_on_reachable. Qed.
+Print Assumptions C04_filter_wellformed.
+
+(* A job WITHOUT version filter on a state satisfying the invariant: step returns Ok; there is a duplicate-free list
+   ks of issue numbers that is EXACTLY the set of live specification entities having every required component, and the
+   i-th invocation of the callback is the visit of entity ks[i]: its handle and its own cells (None for an absent
+   optional component). Hence the multiset of visited handles is { hnd hs k | k selected }, each exactly once
+   (NoDup, stated for the handles too); entity_index runs 0..N-1; the invariant holds again afterwards. *)
+Theorem C04_entity_level : forall cis s hs al x j parallel tov workers cap,
+  MInv cis s hs al x -> JReady s -> j_check j = 0%N -> reqs_ok j -> 0 < cap ->
+  exists s' last arrays ks,
+    step s (ORunJob j parallel tov workers cap [] false) = Ok (s', RJob last arrays) /\
+    NoDup ks /\
+    (forall k, In k ks <-> exists e, find_ent x k = Some e /\ spec_selected j e) /\
+    Forall2 (visit_of_entity hs x j) ks (out_visits arrays) /\
+    NoDup (map fst (out_visits arrays)) /\
+    out_indices arrays = seq 0 (length ks) /\
+    last = (match ks with [] => j_last j | _ => wv s end) /\
+    MInv cis s' hs al x /\ JReady s'.
+Proof. exact entity_level_nofilter. Qed.
+Print Assumptions C04_entity_level.
+
+(* the same for a job WITH a version filter (any check mask) on its FIRST run *)
+Theorem C04_entity_level_first_filtered_run : forall cis s hs al x j parallel tov workers cap,
+  MInv cis s hs al x -> JReady s -> j_last j = WV_NULL -> reqs_ok j -> 0 < cap ->
+  exists s' last arrays ks,
+    step s (ORunJob j parallel tov workers cap [] false) = Ok (s', RJob last arrays) /\
+    NoDup ks /\
+    (forall k, In k ks <-> exists e, find_ent x k = Some e /\ spec_selected j e) /\
+    Forall2 (visit_of_entity hs x j) ks (out_visits arrays) /\
+    NoDup (map fst (out_visits arrays)) /\
+    out_indices arrays = seq 0 (length ks) /\
+    last = (match ks with [] => WV_NULL | _ => wv s end) /\
+    MInv cis s' hs al x /\ JReady s'.
+Proof. exact entity_level_first_run. Qed.
+Print Assumptions C04_entity_level_first_filtered_run.
+
+(* the hypotheses MInv and JReady hold on the final state of every script of the unlocked alphabet (alpha_b: create,
+   destroyNow, assign, removeComponent, write through getComponent) that stays inside the contract and runs without
+   error, relating it to the abstract world xrun of the same script *)
+Theorem C04_reachable_states : forall typed n cis ops s hs,
+  cis_ok cis -> forallb (alpha_b cis) ops = true -> mrun typed n cis ops = Ok (s, hs) ->
+  x_viol (xrun n cis ops) = 0 -> within (length hs) ->
+  exists al, MInv cis s hs al (xrun n cis ops) /\ JReady s.
+Proof. exact unlocked_scripts_inv. Qed.
+Print Assumptions C04_reachable_states.
+
+(* ... and of every such script with job runs interleaved (JRun: ANY job -- any filter, any history --, without
+   callback actions; to the abstract world a job run means nothing: jx_step) *)
+Theorem C04_scripts_with_job_runs : forall typed n cis ops s hs,
+  cis_ok cis -> forallb (jalpha cis) ops = true -> jrun typed n cis ops = Ok (s, hs) ->
+  x_viol (jxrun n cis ops) = 0 -> within (length hs) ->
+  exists al, MInv cis s hs al (jxrun n cis ops) /\ JReady s.
+Proof. exact scripts_inv. Qed.
+Print Assumptions C04_scripts_with_job_runs.
+
+(* C04 on scripts: after every such script, a job that processes everything (no filter, or first run) visits exactly the
+   entities the abstract world of the script selects, each once, with its own components *)
+Theorem C04_on_scripts : forall typed n cis ops s hs j parallel tov workers cap,
+  cis_ok cis -> forallb (jalpha cis) ops = true -> jrun typed n cis ops = Ok (s, hs) ->
+  x_viol (jxrun n cis ops) = 0 -> within (length hs) ->
+  jfull j -> reqs_ok j -> 0 < cap ->
+  exists s' last arrays ks,
+    step s (ORunJob j parallel tov workers cap [] false) = Ok (s', RJob last arrays) /\
+    NoDup ks /\
+    (forall k, In k ks <-> exists e, find_ent (jxrun n cis ops) k = Some e /\ spec_selected j e) /\
+    Forall2 (visit_of_entity hs (jxrun n cis ops) j) ks (out_visits arrays) /\
+    NoDup (map fst (out_visits arrays)) /\
+    out_indices arrays = seq 0 (length ks).
+Proof. exact entity_level_on_scripts. Qed.
+Print Assumptions C04_on_scripts.
+
+(* ---- the hypotheses are satisfiable; a concrete run ---------------------------------------------------------------
+   four archetypes {0,1} {0,1,2} {1} {0}; the job requires 0 and 1 and asks for 2 optionally, so two of them match.
+   Entities are created, written, destroyed (swap-remove in {0,1}), moved by assign (swap-remove in {0,1}) and by
+   removeComponent (swap-remove in {0,1,2}); an id is recycled.  Task override 3, storage-chunk capacity 2. *)
+Definition c04_cis : list cinfo := [pal_info 0 0; pal_info 1 0; pal_info 2 0; pal_info 3 0; dyn_info 8 33; pal_info 6 0].
+Lemma c04_cis_ok : cis_ok c04_cis.
+Proof. unfold cis_ok, c04_cis. repeat constructor; simpl; intros; congruence. Qed.
+Definition c04_job : job := {| j_reqs := [(0, true, true); (1, false, true); (2, true, false)]; j_check := 0%N; j_last := 5%N |}.
+Definition c04_job_v : job := {| j_reqs := [(0, true, true); (1, false, true); (2, true, false)]; j_check := 1%N; j_last := WV_NULL |}.
+Definition c04_part1 : list xop :=
+  [XoCreate 0 3%N [] false; XoCreate 0 3%N [] false; XoCreate 0 3%N [] false; XoCreate 0 7%N [] false; XoCreate 0 7%N [] false;
+   XoCreate 0 2%N [] false; XoCreate 0 3%N [] false;
+   XoSet 0 0 10%Z; XoSet 1 0 11%Z; XoSet 2 1 12%Z; XoSet 3 2 13%Z; XoSet 4 0 14%Z; XoSet 6 1 16%Z; XoSet 5 1 15%Z].
+Definition c04_part2 : list xop :=
+  [XoDestroyNow 0 0; XoAssign 0 1 2 (Some 21%Z); XoRemove 0 3 2 true; XoCreate 0 3%N [] false; XoCreate 0 1%N [] false;
+   XoCreate 0 3%N [] false].
+Definition c04_script : list xop := c04_part1 ++ c04_part2.
+(* the same script with a first run of the version-filtered job in the middle and a sequential run at the end *)
+Definition c04_jscript : list jop :=
+  map JOp c04_part1 ++ [JRun c04_job_v true 0 3 4] ++ map JOp c04_part2 ++ [JRun c04_job false 0 0 1].
+
+Example C04_entity_level_hypotheses :
+  cis_ok c04_cis /\ forallb (alpha_b c04_cis) c04_script = true /\ x_viol (xrun 2 c04_cis c04_script) = 0 /\
+  j_check c04_job = 0%N /\ reqs_ok c04_job /\ j_last c04_job_v = WV_NULL /\ reqs_ok c04_job_v /\
+  exists s hs al, mrun false 2 c04_cis c04_script = Ok (s, hs) /\ within (length hs) /\
+                  MInv c04_cis s hs al (xrun 2 c04_cis c04_script) /\ JReady s.
+Proof.
+  split; [exact c04_cis_ok|]. split; [vm_compute; reflexivity|]. split; [vm_compute; reflexivity|].
+  split; [reflexivity|]. split; [repeat constructor|]. split; [reflexivity|]. split; [repeat constructor|].
+  assert (E : exists s hs, mrun false 2 c04_cis c04_script = Ok (s, hs) /\ within (length hs))
+    by (eexists; eexists; split; [vm_compute; reflexivity|vm_compute; reflexivity]).
+  destruct E as (s & hs & E & Hb).
+  destruct (C04_reachable_states false 2 c04_cis c04_script s hs c04_cis_ok) as (al & HI & HJ);
+    [vm_compute; reflexivity|exact E|vm_compute; reflexivity|exact Hb|].
+  exists s, hs, al. auto.
+Qed.
+
+Example C04_on_scripts_hypotheses :
+  cis_ok c04_cis /\ reqs_ok c04_job_v /\ 0 < 2 /\
+  forallb (jalpha c04_cis) c04_jscript = true /\ x_viol (jxrun 2 c04_cis c04_jscript) = 0 /\ jfull c04_job_v /\
+  exists s hs, jrun false 2 c04_cis c04_jscript = Ok (s, hs) /\ within (length hs).
+Proof.
+  split; [exact c04_cis_ok|]. split; [repeat constructor|]. split; [lia|].
+  split; [vm_compute; reflexivity|]. split; [vm_compute; reflexivity|]. split; [left; reflexivity|].
+  eexists; eexists; split; [vm_compute; reflexivity|vm_compute; reflexivity].
+Qed.
+
+(* what the model returns on the final state: tasks 0,1,2 get 3,2,2 entities; the population 5 of archetype {0,1} is cut
+   at the storage-chunk ends 2 and 4 and at the task ends 3 and 5; entity_index 0..6; the issue numbers visited are
+   6 2 3 7 9 (archetype {0,1}, in slot order after the swap-removes) 1 4 (archetype {0,1,2}) *)
+Example C04_entity_level_example :
+  match mrun false 2 c04_cis c04_script with
+  | Ok (s, hs) =>
+    match step s (ORunJob c04_job true 3 1 2 [] false) with
+    | Ok (_, RJob last arrays) =>
+      map (fun a => (am_mask a, length (am_ents a))) (archs s) = [(3%N, 5); (7%N, 2); (2%N, 1); (1%N, 1)] /\
+      arrays =
+        [(0, 0, [((6%N, 0%N), [Some None; Some (Some 16%Z); None]); ((2%N, 0%N), [Some None; Some (Some 12%Z); None])]);
+         (0, 2, [((3%N, 0%N), [Some None; Some None; None])]);
+         (1, 3, [((0%N, 1%N), [Some None; Some (Some 16%Z); None])]);
+         (1, 4, [((8%N, 0%N), [Some None; Some None; None])]);
+         (2, 5, [((1%N, 0%N), [Some (Some 11%Z); Some None; Some (Some 21%Z)]);
+                 ((4%N, 0%N), [Some (Some 14%Z); Some None; Some (Some 1002%Z)])])] /\
+      map fst (out_visits arrays) = map (fun k => nth k hs null_handle) [6; 2; 3; 7; 9; 1; 4] /\
+      out_indices arrays = seq 0 7
+    | _ => False
+    end
+  | Err _ => False
+  end.
+Proof. vm_compute. repeat split. Qed.
+
+(* the specification side of the same script: the entities having components 0 and 1 are 2 4 6 1 3 7 9 *)
+Example C04_entity_level_spec_example :
+  map (fun e => (e_k e, e_comps e))
+      (filter (fun e => has_comp (e_comps e) 0 && has_comp (e_comps e) 1) (x_ents (xrun 2 c04_cis c04_script))) =
+  [(2, [(0, None); (1, Some 12%Z)]); (4, [(0, Some 14%Z); (1, None); (2, Some 1002%Z)]); (6, [(0, None); (1, Some 16%Z)]);
+   (1, [(0, Some 11%Z); (1, None); (2, Some 21%Z)]); (3, [(0, None); (1, None)]); (7, [(0, None); (1, None)]);
+   (9, [(0, None); (1, None)])].
+Proof. vm_compute. reflexivity. Qed.
+
+(* the version-filtered job on its first run after the script with interleaved job runs: the same visits *)
+Example C04_first_filtered_run_example :
+  match jrun false 2 c04_cis c04_jscript with
+  | Ok (s, hs) =>
+    match step s (ORunJob c04_job_v true 3 1 2 [] false) with
+    | Ok (_, RJob last arrays) =>
+      last = 2%N /\ map fst (out_visits arrays) = map (fun k => nth k hs null_handle) [6; 2; 3; 7; 9; 1; 4] /\
+      out_indices arrays = seq 0 7
+    | _ => False
+    end
+  | Err _ => False
+  end.
+Proof. vm_compute. repeat split. Qed.
+
+
+(* the hypotheses of the model-level theorem and of the filter theorem on the same state *)
+Example C04_run_job_model_hypotheses :
+  jfull c04_job /\ jfull c04_job_v /\
+  exists s hs, mrun false 2 c04_cis c04_script = Ok (s, hs) /\ run_ready s /\
+    map (jmatch c04_job) (archs s) = [true; true; false; false].
+Proof.
+  split; [right; reflexivity|]. split; [left; reflexivity|].
+  destruct C04_entity_level_hypotheses as (_ & _ & _ & _ & _ & _ & _ & s & hs & al & E & _ & HI & HJ).
+  exists s, hs. split; [exact E|]. split; [eapply run_ready_of; eassumption|].
+  revert E. clear. intros E.
+  assert (E' : match mrun false 2 c04_cis c04_script with
+               | Ok (s0, _) => map (jmatch c04_job) (archs s0) = [true; true; false; false] | Err _ => False end)
+    by (vm_compute; reflexivity).
+  rewrite E in E'. exact E'.
+Qed.
